@@ -113,6 +113,32 @@ func drivePoint(c *ctx) {
 			c.E("pt.Equal", "p", ptRaw(Q), "q", ptRaw(P), "out", int(Q.Equal(P)), "twin", 1)
 		}
 	}
+	// Equal on DISTINCT points that agree in a linear combination of their coordinates (x + y, x - y): the other intersections of the
+	// curve with the lines x +- y = c through P, in several representatives (round 10)
+	{
+		npairs := 0
+		for k := int64(1); k <= 40 && npairs < c.scale(6, 24); k++ {
+			unc := mulG(big.NewInt(k)).UncompressedBytes()
+			px, py := new(big.Int).SetBytes(unc[1:33]), new(big.Int).SetBytes(unc[33:65])
+			for _, q := range collinearPartners(px, py) {
+				var xb, yb [32]byte
+				q[0].FillBytes(xb[:])
+				q[1].FillBytes(yb[:])
+				Q, err := secp256k1.NewPointFromCoords(&xb, &yb)
+				if err != nil {
+					continue // not on the curve after all: the generator is untrusted
+				}
+				npairs++
+				P := mulG(big.NewInt(k))
+				for _, z := range []*big.Int{big.NewInt(1), big.NewInt(2), add(randBig(r, add(bigP, -1)), 1)} {
+					Pz, Qz := rep(P, z), rep(Q, add(randBig(r, add(bigP, -1)), 1))
+					c.E("pt.Equal", "p", ptRaw(Pz), "q", ptRaw(Qz), "out", int(Pz.Equal(Qz)), "collinear", 1)
+					c.E("pt.Equal", "p", ptRaw(Qz), "q", ptRaw(Pz), "out", int(Qz.Equal(Pz)), "collinear", 1)
+				}
+				c.E("pt.Equal", "p", ptRaw(P), "q", ptRaw(Q), "out", int(P.Equal(Q)), "collinear", 1)
+			}
+		}
+	}
 	// the formulas multiply intermediate values by small constants (3b = 21, 3, 2 ...): operands are chosen so that THE VALUE BEING
 	// MULTIPLIED — Z1*Z2, X1*Z2 + X2*Z1, Y1*Z2 + Y2*Z1, Z^2 ... — sits, in its internal form, just below a multiple of 2^256 / k
 	// (the window a specialised small-constant multiply has to carry through).  Z1*Z2 = w with Z2 = 1; x1 + x2 = w with both affine.
